@@ -1194,6 +1194,9 @@ def sky_annulus_cases():
                     for inc in ('absent', False):
                         for wk in (1, 5):
                             out.append({'part': 'sky_annulus', 'cls': cls, 'size': si, 'angle': ang, 'units': un, 'include': inc, 'wcs': wk})
+                        # oblong pixels (the scale along y is 1.6 times the scale along x): whatever the conversion of a simple sky shape
+                        # gives there, the annulus is still its outer shape minus its inner shape
+                        out.append({'part': 'sky_annulus', 'cls': cls, 'size': si, 'angle': ang, 'units': un, 'include': inc, 'wcs': 1, 'aniso': 1.6})
     return out
 
 
@@ -1204,7 +1207,8 @@ def check_sky_annulus(res, c):
     from mc.pool import wcs_simple
     proj, rot = WCSS[c['wcs']][:2]
     scale = 1e-3
-    w = wcs_simple(rot_deg=rot, cdelt=scale, proj=proj)
+    w = wcs_simple(rot_deg=rot, cdelt=scale, proj=proj, aniso=c.get('aniso', 1.0))
+    res.axis('sky_annulus_pixels', 'oblong' if c.get('aniso') else 'square')
     case = dict(c)
     cx = Ctx(res, case)
     res.states += 1
@@ -1364,7 +1368,7 @@ def replay(case):
     elif case['part'] == 'tree':
         check_tree(res, case['tree'], case['flags'], extras=case.get('extras', False), only=only)
     elif case['part'] == 'sky_annulus':
-        check_sky_annulus(res, {k: case[k] for k in ('part', 'cls', 'size', 'angle', 'units', 'include', 'wcs')})
+        check_sky_annulus(res, {k: case[k] for k in ('part', 'cls', 'size', 'angle', 'units', 'include', 'wcs', 'aniso') if k in case})
     elif case['part'] == 'annulus_mask':
         s = dict(case['spec'])
         inc = s.pop('include', 'absent')
